@@ -149,7 +149,7 @@ func c09Program(seed int64, n int, withReopen bool) (ops []c09Op, startProto boo
 			cnt := rng.Intn(4) + 1
 			op := c09Op{Kind: "storelogs"}
 			for j := 0; j < cnt; j++ {
-				op.Logs = append(op.Logs, c09Entry(rng, next, !mode))
+				op.Logs = append(op.Logs, c09Entry(rng, next, !mode || rng.Intn(3) == 0))
 				next++
 			}
 			if cnt == 1 && rng.Intn(2) == 0 {
@@ -157,7 +157,7 @@ func c09Program(seed int64, n int, withReopen bool) (ops []c09Op, startProto boo
 			}
 			ops = append(ops, op)
 		case r < 30:
-			ops = append(ops, c09Op{Kind: "storelogs", Logs: []c09Log{c09Entry(rng, c09Index(rng), !mode)}})
+			ops = append(ops, c09Op{Kind: "storelogs", Logs: []c09Log{c09Entry(rng, c09Index(rng), !mode || rng.Intn(3) == 0)}})
 		case r < 36:
 			ops = append(ops, c09Op{Kind: "storeproto", Logs: []c09Log{c09Entry(rng, c09Index(rng), false)}})
 		case r < 48:
@@ -269,8 +269,8 @@ func (m *c09Model) last() uint64 {
 
 func sameMessage(a, b []byte, index uint64) bool {
 	defer func() { recover() }()
-	ma := robust.NewMessageFromBytes(a, index)
-	mb := robust.NewMessageFromBytes(b, index)
+	ma := robust.NewMessageFromBytes(a, robust.IdFromRaftIndex(index))
+	mb := robust.NewMessageFromBytes(b, robust.IdFromRaftIndex(index))
 	return reflect.DeepEqual(ma, mb)
 }
 
@@ -442,6 +442,8 @@ func TestVerifC09(t *testing.T) {
 	dir := verifrep.Dir()
 	for k := 0; k < n; k++ {
 		seed := base*104729 + int64(k)
+		// the message offset main() configures (its default) matters for the JSON->protobuf conversion
+		robust.MessageOffset = []uint64{0, 4648398125000000000, 1500000000000000000}[k%3]
 		ops, startProto := c09Program(seed, 40, true)
 		d := filepath.Join(dir, fmt.Sprintf("db%d", k))
 		s, err := NewLevelDBStore(d, false, startProto)
@@ -476,11 +478,12 @@ func TestVerifC09(t *testing.T) {
 			ks = append(ks, kk)
 		}
 		sort.Strings(ks)
-		rep.Case(fmt.Sprintf("seq|%v|%s|%d", startProto, strings.Join(ks, ","), len(m.logs)))
+		rep.Case(fmt.Sprintf("seq|%v|%s|%d|offset=%v", startProto, strings.Join(ks, ","), len(m.logs), robust.MessageOffset != 0))
 		if k == 0 {
 			rep.Sample(map[string]interface{}{"seed": seed, "start_protobuf": startProto, "ops": summarizeOps(ops)})
 		}
 	}
+	robust.MessageOffset = 0
 	// crash points: a child executes a program and is killed at a PRNG-chosen moment
 	kills := n / 10
 	if kills < 3 {
